@@ -1117,6 +1117,16 @@ func compareSyms(a, b *Sym, hint string) cmpResult {
 			addS("a" + s + "b" + s + "a" + s + "b")
 		}
 	}
+	// a string can satisfy two substring tests at once: concatenations of pairs of literals
+	if len(lits) >= 2 && len(lits) <= 8 {
+		for _, x := range lits {
+			for _, y := range lits {
+				if x != y && x != "" && y != "" {
+					addS(x + y)
+				}
+			}
+		}
+	}
 	// discover base terms by evaluating once with an empty environment, repeatedly (quantifier bodies appear once
 	// their collection has a length)
 	a, b = canonBinders(a), canonBinders(b)
